@@ -361,15 +361,15 @@ func MainC16() {
 		g := NewG(r.Rng)
 		h.program("program", g.Program(), "bd", true)
 	}
-	// sorted(key=…, reverse=…) over lists with tied keys; beyond 12 elements sort.Slice is not stable and the model does
-	// not follow it (oracle only)
+	// sorted(key=…, reverse=…) over lists with tied keys, short and long (sort.Slice, which sorted used to call, is stable
+	// only up to 12 elements: repaired finding sorted-not-stable-beyond-12)
 	for i := 0; i < r.N(300, 3000); i++ {
 		g := NewG(r.Rng)
 		h.program("sorted-key", g.SortedKeyProgram(false), "bd", true)
 	}
 	for i := 0; i < r.N(40, 500); i++ {
 		g := NewG(r.Rng)
-		h.program("sorted-key-long", g.SortedKeyProgram(true), "bd", false)
+		h.program("sorted-key-long", g.SortedKeyProgram(true), "bd", true)
 	}
 	// 3. outside the modelled core: non-ASCII text (oracle only)
 	for i := 0; i < r.N(100, 2500); i++ {
